@@ -161,4 +161,85 @@ theorem C09_no_year (pd : PrefDates) (nowT t r : DT) (hv : t.valid) (hnv : nowT.
       simp [isFuture] at h; subst h
       exact ⟨rfl, rfl, rfl, rfl, rfl, rfl, (by intro hh; cases hh), (by intro hh; cases hh), fun _ => hy⟩
 
+
+/-! ## a clock time on its own -/
+
+/-- the day decision for a clock time written on its own, in UTC (`tz_offset = 0`): the reference day, moved by one day when the
+    preference asks for the other side of the reference time -/
+def timeOnlyFix (pd : PrefDates) (now : Int) (t : DT) : Except PyErr DT :=
+  if isPast pd then (if now < t.micros then t.addDays (-1) else .ok t)
+  else if isFuture pd then (if now > t.micros then t.addDays 1 else .ok t)
+  else .ok t
+
+theorem micros_of_addDays (t t' : DT) (k : Int) (h : t.addDays k = .ok t') : t'.micros = t.micros + k * (dayUs : Int) := by
+  obtain ⟨ho, h1, h2, h3, h4, _⟩ := addDays_spec t t' k h
+  unfold DT.micros DT.microsN DT.tod
+  rw [h1, h2, h3, h4]
+  have : ((t'.ord * dayUs + (((t.h * 60 + t.mi) * 60 + t.s) * 1000000 + t.us) : Nat) : Int) =
+      (t'.ord : Int) * (dayUs : Int) + ((((t.h * 60 + t.mi) * 60 + t.s) * 1000000 + t.us : Nat) : Int) := by rw [Int.natCast_add, Int.natCast_mul]
+  rw [this, ho]
+  have : ((t.ord * dayUs + (((t.h * 60 + t.mi) * 60 + t.s) * 1000000 + t.us) : Nat) : Int) =
+      (t.ord : Int) * (dayUs : Int) + ((((t.h * 60 + t.mi) * 60 + t.s) * 1000000 + t.us : Nat) : Int) := by rw [Int.natCast_add, Int.natCast_mul]
+  rw [this, Int.add_mul]
+  omega
+
+/-- **C09_time_only**: a clock time on its own is first placed on the reference day; 'past' yields the *nearest* such moment not after the
+    reference time (less than a day back), 'future' the nearest not before it (less than a day ahead), 'current_period' stays on the
+    reference day; the time of day is the one written. -/
+theorem C09_time_only (pd : PrefDates) (nowT t r : DT) (hday : t.ord = nowT.ord) (hv : t.valid) (hnv : nowT.valid)
+    (h : timeOnlyFix pd nowT.micros t = .ok r) :
+    r.h = t.h ∧ r.mi = t.mi ∧ r.s = t.s ∧ r.us = t.us ∧
+    (pd = .past → r.micros ≤ nowT.micros ∧ nowT.micros - r.micros < (dayUs : Int)) ∧
+    (pd = .future → nowT.micros ≤ r.micros ∧ r.micros - nowT.micros < (dayUs : Int)) ∧
+    (pd = .currentPeriod → r = t) := by
+  obtain ⟨a1, a2, a3, a4, a5, a6, a7, a8, a9, a10⟩ := hv
+  obtain ⟨b1, b2, b3, b4, b5, b6, b7, b8, b9, b10⟩ := hnv
+  have ht := tod_lt t a7 a8 a9 a10
+  have hn := tod_lt nowT b7 b8 b9 b10
+  have emt : t.micros = (t.ord : Int) * (dayUs : Int) + (t.tod : Int) := by unfold DT.micros DT.microsN; rw [Int.natCast_add, Int.natCast_mul]
+  have emn : nowT.micros = (nowT.ord : Int) * (dayUs : Int) + (nowT.tod : Int) := by unfold DT.micros DT.microsN; rw [Int.natCast_add, Int.natCast_mul]
+  rw [hday] at emt
+  unfold timeOnlyFix at h
+  cases pd with
+  | past =>
+    simp [isPast] at h
+    split at h
+    · rename_i hlt
+      have hm := micros_of_addDays t r (-1) h
+      obtain ⟨_, h1, h2, h3, h4, _⟩ := addDays_spec t r (-1) h
+      refine ⟨h1, h2, h3, h4, fun _ => ?_, (by intro hh; cases hh), (by intro hh; cases hh)⟩
+      constructor <;> omega
+    · rename_i hlt
+      injection h with h; subst h
+      refine ⟨rfl, rfl, rfl, rfl, fun _ => ?_, (by intro hh; cases hh), (by intro hh; cases hh)⟩
+      constructor <;> omega
+  | future =>
+    simp [isPast, isFuture] at h
+    split at h
+    · rename_i hlt
+      have hm := micros_of_addDays t r 1 h
+      obtain ⟨_, h1, h2, h3, h4, _⟩ := addDays_spec t r 1 h
+      refine ⟨h1, h2, h3, h4, (by intro hh; cases hh), fun _ => ?_, (by intro hh; cases hh)⟩
+      constructor <;> omega
+    · rename_i hlt
+      injection h with h; subst h
+      refine ⟨rfl, rfl, rfl, rfl, (by intro hh; cases hh), fun _ => ?_, (by intro hh; cases hh)⟩
+      constructor <;> omega
+  | currentPeriod =>
+    simp [isPast, isFuture] at h
+    subst h
+    exact ⟨rfl, rfl, rfl, rfl, (by intro hh; cases hh), (by intro hh; cases hh), fun _ => rfl⟩
+theorem addSeconds_zero (t : DT) (hv : t.valid) : t.addSeconds 0 = .ok t := by
+  unfold DT.addSeconds DT.addMicros
+  simp only [Int.zero_mul, Int.add_zero]
+  exact ofMicros_micros t hv
+
+theorem correctTimeFrame_timeOnly (st : PSettings) (p : PS) (t : DT) (tm : List Char) (hv : t.valid)
+    (hw : p.weekdaySet = false) (hm : truthy p.month = false) (hy : p.tokYear = none) (hmo : p.tokMonth = none) (hd : p.tokDay = none)
+    (htime : p.tokTime = some tm) (hne : tm.isEmpty = false) (htz : st.tzOffset = 0) :
+    correctTimeFrame st p t = timeOnlyFix st.preferDates (nowCmp st) t := by
+  unfold correctTimeFrame timeOnlyFix
+  simp [hw, hm, hy, hmo, hd, htime, hne, htz, tokTruthy, bind, Except.bind, pure, Except.pure, addSeconds_zero t hv]
+  cases hp : st.preferDates <;> simp [isPast, isFuture] <;> (split <;> (try rfl) <;> (cases t.addDays _ <;> rfl))
+
 end DP
